@@ -39,6 +39,7 @@ const preludeIntDec = `(define-sort Dec () Int)
 (define-fun dtrunc ((a Dec)) Int (tdiv a P18))
 (define-fun dtruncdec ((a Dec)) Dec (* (tdiv a P18) P18))
 (define-fun dabs ((a Dec)) Dec (ite (>= a 0) a (- a)))
+(define-fun dceil ((a Dec)) Dec (let ((t (* (tdiv a P18) P18))) (ite (and (> a 0) (not (= t a))) (+ t P18) t)))
 (define-fun chop ((x Int)) Int
   (let ((ax (ite (>= x 0) x (- x))))
    (let ((q (div ax P18)) (r (mod ax P18)))
@@ -51,6 +52,7 @@ const preludeE = `(define-fun dmul ((a Dec) (b Dec)) Dec (chop (* a b)))
 (define-fun dmulint ((a Dec) (i Int)) Dec (* a i))
 (define-fun dquoint ((a Dec) (i Int)) Dec (tdiv a i))
 (define-fun dround ((a Dec)) Int (chop a))
+(define-fun dmultrunc ((a Dec) (b Dec)) Dec (tdiv (* a b) P18))
 (declare-fun dpow (Dec Int) Dec)
 (assert (forall ((x Dec)) (! (= (dpow x 0) P18) :pattern ((dpow x 0)))))
 (assert (forall ((x Dec)) (! (= (dpow x 1) x) :pattern ((dpow x 1)))))
@@ -66,6 +68,7 @@ var preludeU = `(declare-fun dmul (Dec Dec) Dec)
 (declare-fun dmulint (Dec Int) Dec)
 (declare-fun dquoint (Dec Int) Dec)
 (declare-fun dround (Dec) Int)
+(declare-fun dmultrunc (Dec Dec) Dec)
 (declare-fun dpow (Dec Int) Dec)
 ` + uAxioms
 
@@ -83,6 +86,11 @@ var uAxiomList = []struct{ Name, Ax string }{
 	{"mulint_zero", "(forall ((a Dec)) (! (= (dmulint a 0) 0) :pattern ((dmulint a 0))))"},
 	{"mulint_zero_l", "(forall ((i Int)) (! (= (dmulint 0 i) 0) :pattern ((dmulint 0 i))))"},
 	{"mulint_le", "(forall ((a Dec) (i Int)) (! (=> (and (>= a 0) (<= a P18) (>= i 0)) (<= (dmulint a i) (* i P18))) :pattern ((dmulint a i))))"},
+	{"multrunc_nonneg", "(forall ((a Dec) (b Dec)) (! (=> (and (>= a 0) (>= b 0)) (>= (dmultrunc a b) 0)) :pattern ((dmultrunc a b))))"},
+	{"multrunc_le_left", "(forall ((a Dec) (b Dec)) (! (=> (and (>= a 0) (>= b 0) (<= b P18)) (<= (dmultrunc a b) a)) :pattern ((dmultrunc a b))))"},
+	{"multrunc_zero_r", "(forall ((a Dec)) (! (= (dmultrunc a 0) 0) :pattern ((dmultrunc a 0))))"},
+	{"multrunc_zero_l", "(forall ((b Dec)) (! (= (dmultrunc 0 b) 0) :pattern ((dmultrunc 0 b))))"},
+	{"round_near", "(forall ((a Dec)) (! (and (<= (- a (* (dround a) P18)) 500000000000000000) (<= (- (* (dround a) P18) a) 500000000000000000)) :pattern ((dround a))))"},
 	{"quoint_nonneg", "(forall ((a Dec) (i Int)) (! (=> (and (>= a 0) (> i 0)) (and (>= (dquoint a i) 0) (<= (dquoint a i) a))) :pattern ((dquoint a i))))"},
 }
 
@@ -111,6 +119,8 @@ const preludeR = `(define-sort Dec () Real)
 (define-fun dmulint ((a Dec) (i Int)) Dec (* a (to_real i)))
 (define-fun dquoint ((a Dec) (i Int)) Dec (/ a (to_real i)))
 (declare-fun dround (Dec) Int)
+(define-fun dmultrunc ((a Dec) (b Dec)) Dec (* a b))
+(define-fun dceil ((a Dec)) Dec (ite (= (to_real (to_int a)) a) a (to_real (+ (to_int a) 1))))
 (declare-fun dpow (Dec Int) Dec)
 (assert (forall ((x Dec)) (! (= (dpow x 0) 1.0) :pattern ((dpow x 0)))))
 (assert (forall ((x Dec)) (! (= (dpow x 1) x) :pattern ((dpow x 1)))))
